@@ -1,7 +1,179 @@
+import ElvisVerif.Model.Socket
 import Driver.Common
-/-! Line-protocol handlers for C02 (sub-commands `c02` / `c02-*`). -/
-namespace Driver.C02
+/-!
+Line-protocol handlers for C02.
 
-def dispatch (_sub : String) (_i _o : IO.FS.Stream) : Option (IO Unit) := none
+* `c02`        — recv / recv_msg unit correspondence over one connected datagram socket:
+                 `snd <hex>` · `recv <n> <blocking>` · `recvmsg <blocking>`
+* `c02-stack`  — the server's socket-layer event sequence of a full-stack run:
+                 `listen <ep> <backlog>` · `notify <local> <remote>` · `arr <local> <remote> <chunk>` ·
+                 `activate <listen-ep> <local-addr>` · `replay <local> <remote>` · `recv <local> <remote> <n>` ·
+                 `recvmsg <local> <remote>` · `handoff <k> <perm>`
+-/
+namespace Driver.C02
+open Elvis.Sock
+
+def cap : Nat := Elvis.Gen.socketChannelCapacity
+
+/-! ### unit -/
+
+structure UState where
+  sess : Session := { active := true }
+  stored : Option Msg := none
+
+def showRx : RxResult → String
+  | .queued => "queued"
+  | .stored => "stored"
+  | .full => "full"
+  | .closed => "closed"
+
+def ustep (s : UState) (ws : List String) : UState × String :=
+  match ws with
+  | ["case", id] => ({}, s!"case {id}")
+  | "cfg" :: _ => (s, "cfg")
+  | ["snd", h] =>
+    match parseHex h with
+    | none => (s, "bad-op")
+    | some b =>
+      let r := s.sess.receive cap b
+      ({ s with sess := r.1 }, showRx r.2)
+  | ["recv", n, b] =>
+    match n.toNat? with
+    | none => (s, "bad-op")
+    | some n =>
+      let r := recv s.stored s.sess.chan n (b == "1")
+      -- a call that ends up waiting has already swallowed the empty messages in front of it
+      let s' : UState := { stored := r.stored, sess := { s.sess with chan := r.queue } }
+      if r.blocked then (s', "blocked") else (s', s!"r {toHex r.out}")
+  | ["recvmsg", b] =>
+    match recvMsg s.stored s.sess.chan (b == "1") with
+    | .msg m st q => ({ stored := st, sess := { s.sess with chan := q } }, s!"m {toHex m}")
+    | .blocked => (s, "blocked")
+    | .error => (s, "error")
+  | _ => (s, "bad-op")
+
+/-! ### full stack -/
+
+def parseAddr (s : String) : Option Nat :=
+  match s.splitOn "." with
+  | [a, b, c, d] => do
+    let a ← a.toNat?
+    let b ← b.toNat?
+    let c ← c.toNat?
+    let d ← d.toNat?
+    pure (((a * 256 + b) * 256 + c) * 256 + d)
+  | _ => none
+
+def parseEp (s : String) : Option Endpoint :=
+  match s.splitOn ":" with
+  | [a, p] => do pure ⟨(← parseAddr a), (← p.toNat?)⟩
+  | _ => none
+
+def showAddr (a : Nat) : String :=
+  s!"{a / 16777216 % 256}.{a / 65536 % 256}.{a / 256 % 256}.{a % 256}"
+
+def showEp (e : Endpoint) : String := s!"{showAddr e.addr}:{e.port}"
+
+def parseChunk (s : String) : Option Bytes :=
+  match s.splitOn ":" with
+  | ["p", c, off, len] => do pure (patRange (← c.toNat?) (← off.toNat?) (← len.toNat?))
+  | ["x", h] => parseHex h
+  | _ => none
+
+structure SState where
+  api : Api := {}
+  /-- `stored_message` of the socket of each session -/
+  stored : List (Endpoints × Msg) := []
+
+def SState.storedOf (s : SState) (id : Endpoints) : Option Msg :=
+  (s.stored.find? (·.1 == id)).map (·.2)
+
+def SState.setStored (s : SState) (id : Endpoints) (m : Option Msg) : SState :=
+  let rest := s.stored.filter (fun e => !(e.1 == id))
+  match m with
+  | none => { s with stored := rest }
+  | some m => { s with stored := rest ++ [(id, m)] }
+
+def showDemux : DemuxResult → String
+  | .delivered r => showRx r
+  | .newSession => "norx"
+  | .missingSession => "norx"
+  | .backlogFull => "norx"
+
+/-- is the observed order in which writes reached `Tcb::send` a behaviour of the hand-off model
+under the discipline extracted from the source? -/
+def reachable (k : Nat) (perm : List Nat) : Bool :=
+  let d := codeDiscipline
+  if !d.socketSendSpawns && !d.tcpSendSpawns then perm == List.range perm.length && perm.length ≤ k
+  else perm.all (· < k) && perm.eraseDups.length == perm.length
+
+def sstep (s : SState) (ws : List String) : SState × String :=
+  match ws with
+  | ["case", id] => ({}, s!"case {id}")
+  | "scn" :: _ => (s, "scn")
+  | "crash" :: rest => (s, " ".intercalate ("crash" :: rest))
+  | ["listen", ep, backlog] =>
+    match parseEp ep, backlog.toNat? with
+    | some e, some b =>
+      match s.api.listen e b with
+      | some a => ({ s with api := a }, "ok")
+      | none => (s, "existing")
+    | _, _ => (s, "bad-op")
+  | ["notify", l, r] =>
+    match parseEp l, parseEp r with
+    | some l, some r => ({ s with api := s.api.notify ⟨l, r⟩ }, "ok")
+    | _, _ => (s, "bad-op")
+  | ["arr", l, r, c] =>
+    match parseEp l, parseEp r, parseChunk c with
+    | some l, some r, some b =>
+      let res := s.api.demux cap ⟨l, r⟩ b
+      ({ s with api := res.1 }, showDemux res.2)
+    | _, _, _ => (s, "unknown")
+  | ["activate", lep, addr] =>
+    match parseEp lep, parseAddr addr with
+    | some lep, some a =>
+      match s.api.acceptActivate lep a with
+      | some (api, id) => ({ s with api := api }, s!"activated {showEp id.rem}")
+      | none => (s, "none")
+    | _, _ => (s, "bad-op")
+  | ["replay", l, r] =>
+    match parseEp l, parseEp r with
+    | some l, some r =>
+      let res := s.api.acceptReplay cap ⟨l, r⟩
+      ({ s with api := res.1 }, if res.2 then "replayed ok" else "replayed overflow")
+    | _, _ => (s, "bad-op")
+  | ["recv", l, r, n] =>
+    match parseEp l, parseEp r, n.toNat? with
+    | some l, some r, some n =>
+      let id : Endpoints := ⟨l, r⟩
+      match s.api.session? id with
+      | none => (s, "nosession")
+      | some se =>
+        let out := recv (s.storedOf id) se.chan n false
+        (({ s with api := s.api.setChan id out.queue }).setStored id out.stored,
+          s!"r {out.out.length} {digest out.out}")
+    | _, _, _ => (s, "bad-op")
+  | ["recvmsg", l, r] =>
+    match parseEp l, parseEp r with
+    | some l, some r =>
+      let id : Endpoints := ⟨l, r⟩
+      match s.api.session? id with
+      | none => (s, "nosession")
+      | some se =>
+        match recvMsg (s.storedOf id) se.chan false with
+        | .msg m st q => (({ s with api := s.api.setChan id q }).setStored id st, s!"m {m.length} {digest m}")
+        | .blocked => (s, "blocked")
+        | .error => (s, "error")
+    | _, _ => (s, "bad-op")
+  | ["handoff", k, perm] =>
+    match k.toNat?, (if perm == "-" then some [] else (perm.splitOn ",").mapM (·.toNat?)) with
+    | some k, some p => (s, if reachable k p then "reachable" else "unreachable")
+    | _, _ => (s, "bad-op")
+  | _ => (s, "bad-op")
+
+def dispatch (sub : String) (i o : IO.FS.Stream) : Option (IO Unit) :=
+  if sub == "c02" then some (Driver.loop i o ustep {})
+  else if sub == "c02-stack" then some (Driver.loop i o sstep {})
+  else none
 
 end Driver.C02
